@@ -569,7 +569,7 @@ Ltac zprops :=
          | H : (_ <? _) = true |- _ => apply Z.ltb_lt in H
          | H : (_ <? _) = false |- _ => apply Z.ltb_ge in H
          end.
-Ltac ev := cbn [boolish case_ok format_ok py_in existsb py_eq num_of orb andb implb' pval_is is_none int_ge Bool.eqb negb py_truthy] in *.
+Ltac ev := cbn [boolish case_ok format_ok py_in existsb py_eq num_of orb andb implb' pval_is is_none is_str int_ge Bool.eqb negb py_truthy] in *.
 Ltac has_if c := lazymatch c with context [if _ then _ else _] => idtac end.
 Ltac is_bool_lit c := lazymatch c with true => idtac | false => idtac end.
 (* case analysis on the innermost conditions first *)
@@ -584,7 +584,7 @@ Ltac none_vars :=
   repeat match goal with
          | H : is_none ?v = true |- _ => is_var v; destruct v; try discriminate H
          end.
-Ltac evg := cbn [boolish case_ok format_ok py_in existsb py_eq num_of orb andb implb' pval_is is_none int_ge Bool.eqb negb py_truthy].
+Ltac evg := cbn [boolish case_ok format_ok py_in existsb py_eq num_of orb andb implb' pval_is is_none is_str int_ge Bool.eqb negb py_truthy].
 Ltac cases ev :=
   lits;
   repeat match goal with |- context [ofind ?o ?K] => destruct (ofind o K) eqn:? end;
@@ -595,6 +595,7 @@ Ltac close :=
     [ assumption
     | reflexivity
     | solve [ ev; zprops; rewrite ?andb_true_r; rewrite ?Z.leb_le; lia ]
+    | solve [ apply andb_true_iff; split; [zprops; apply Z.leb_le; lia | assumption] ]
     | solve [ repeat match goal with H : _ = _ |- _ => clear H end; cases evg ]
     | solve [ cases ev ] ].
 
